@@ -189,7 +189,7 @@ class Exec:
                 total = 1
                 for s in sizes:
                     total *= s
-                if len(flat) == 1:
+                if len(flat) == 1 and total > 1:
                     flat = flat * total      # the C formatter prints `= {v}` which zero-fills the rest only for v == 0
                     if self.ev(flat[0]).num:
                         raise AnalysisError("lnexec: single non-zero initialiser")
@@ -226,6 +226,8 @@ class Exec:
 
 
 def _flatten(v):
+    if hasattr(v, "flat") and callable(getattr(v, "flat")) and hasattr(v, "shape"):
+        return list(v.flat())  # array model: row-major entries
     if isinstance(v, (list, tuple)):
         out = []
         for x in v:
